@@ -647,7 +647,7 @@ def oracle_cli(req, out, width_pattern=SGR):
     for k, (c, o, e) in enumerate(vs):
         if sgr_strip(o) != sgr_strip(plain_out):
             return "%s: removing the SGR sequences from stdout does not give the unstyled text (%r vs %r)" % (
-                VARIANTS[k], first_diff(sgr_strip(o), sgr_strip(plain_out)), None)
+                (VARIANTS[k],) + first_diff(sgr_strip(o), sgr_strip(plain_out)))
         if sgr_strip(e) != sgr_strip(plain_err):
             return "%s: error text differs from the unstyled one after removing SGR sequences" % VARIANTS[k]
     cmd = args[0]
